@@ -16,19 +16,75 @@ Qed.
 
 (** a trace of the right shape is stamped exactly like the specification stamps its items *)
 Lemma shape_stamps len tr items : shape tr items -> forall nrd,
-  stamps false len tr nrd = stamp_items len items nrd.
+  stamps false len tr nrd = stamp_lenient len items nrd.
 Proof.
   induction 1 as [|pa t tr r H IH|pa p z bs tr r L Hw H IH]; intros nrd.
   - reflexivity.
-  - cbn [stamps stamp_items andb]. rewrite IH. reflexivity.
-  - rewrite stamps_reads. cbn [stamps stamp_items andb].
-    replace (blen bs) with (pwidth p) by (unfold blen; lia). rewrite IH. reflexivity.
+  - cbn [stamps stamp_lenient andb]. rewrite IH. reflexivity.
+  - rewrite stamps_reads. cbn [stamps stamp_lenient andb].
+    replace (blen bs) with (pwidth p) by (unfold blen; lia). unfold vwarn.
+    destruct (valid p z); cbn [app stamps]; rewrite IH; reflexivity.
+Qed.
+
+(** with only valid leaves there are no warnings *)
+Definition item_valid (i : item) : bool := match i with IPrim _ p z => valid p z | INode _ _ => true end.
+
+Lemma items_valid_app a b : forallb item_valid (a ++ b) = forallb item_valid a && forallb item_valid b.
+Proof. apply forallb_app. Qed.
+
+Lemma items_of_valid v : all_valid v = forallb item_valid (items_of v).
+Proof.
+  revert v. fix IH 1. intros [pa p z|pa t kids]; cbn [all_valid items_of forallb item_valid].
+  - rewrite andb_true_r. reflexivity.
+  - induction kids as [|k r IHr]; cbn [forallb flat_map]; [reflexivity|].
+    rewrite items_valid_app, IH, IHr. reflexivity.
+Qed.
+
+Lemma stamp_lenient_valid len items : forall off, forallb item_valid items = true -> stamp_lenient len items off = stamp_items len items off.
+Proof.
+  induction items as [|[pa p z|pa t] r IH]; intros off H; cbn [stamp_lenient stamp_items forallb item_valid] in *; [reflexivity| |].
+  - apply andb_prop in H as [H1 H2]. rewrite H1. cbn [app]. rewrite IH by exact H2. reflexivity.
+  - rewrite IH by exact H. reflexivity.
+Qed.
+
+Lemma ok_leaves_true v : ok_leaves true v = all_valid v.
+Proof.
+  revert v. fix IH 1. intros [pa p z|pa t kids]; cbn [all_valid ok_leaves negb orb]; [reflexivity|].
+  induction kids as [|k r IHr]; cbn [forallb]; [reflexivity|]. rewrite IH, IHr. reflexivity.
+Qed.
+Lemma ok_leaves_false v : ok_leaves false v = true.
+Proof.
+  revert v. fix IH 1. intros [pa p z|pa t kids]; cbn [ok_leaves negb orb]; [reflexivity|].
+  induction kids as [|k r IHr]; cbn [forallb]; [reflexivity|]. rewrite IH, IHr. reflexivity.
 Qed.
 
 Lemma shape_bytes tr items : shape tr items -> blen (bytes_of tr) = List.fold_right (fun i acc => match i with IPrim _ p _ => pwidth p + acc | INode _ _ => acc end) 0 items.
 Proof.
   induction 1 as [|pa t tr r H IH|pa p z bs tr r L Hw H IH]; cbn [bytes_of fold_right]; [reflexivity|exact IH|].
-  rewrite bytes_of_app, bytes_of_map_Rd. cbn [bytes_of]. unfold blen in *. rewrite app_length. lia.
+  rewrite bytes_of_app, bytes_of_map_Rd. unfold vwarn. destruct (valid p z); cbn [app bytes_of]; unfold blen in *; rewrite app_length; lia.
+Qed.
+
+(** both modes at once: whenever the specification reads the whole input as a value of type [t] (in strict mode:
+    with only valid leaves), decoding emits every field's event, out-of-range leaves followed by their warning,
+    with the specified look-ahead, and accepts *)
+Theorem types_decode_in_mode T abort t bs v :
+  sp_ty T t root_path None false bs = Some (v, []) -> ok_leaves abort v = true ->
+  decode T abort (RType t) bs = (stamp_lenient (Z.of_nat (List.length bs)) (items_of v) 0, OAccepted).
+Proof.
+  intros Es AV.
+  destruct (sim_all T abort) as (St & _).
+  assert (W0 : wf_st (mkSt bs [] [])) by (split; constructor).
+  destruct (St t root_path None false bs v [] (mkSt bs [] []) Es AV W0 eq_refl ltac:(unfold blen; cbn; lia) ltac:(constructor))
+    as (tr & s' & a & c & E & Sh & Ic & I' & V' & W' & _).
+  unfold decode, pump. cbn [is_stream_root dec_root].
+  assert (Er : (bind (set_lst []) (fun _ => dec_ty T abort t root_path None false)) (init_st bs) = (tr, s', Ok a)).
+  { unfold bind. cbn [set_lst init_st inp store lst]. rewrite E. reflexivity. }
+  rewrite Er.
+  destruct (pump_go_nostream (Z.of_nat (List.length bs)) tr (mkP 0 None [])) as (ps & G & _ & N).
+  rewrite G. pose proof (pump_go_stamps _ _ _ _ _ _ G) as O. cbn [ps_out ps_nrd rev app] in O, N. rewrite Z.add_0_l in N.
+  pose proof (accounts_dec_root T abort (RType t) (init_st bs) tr s' (Ok a)) as A. cbn [dec_root] in A. specialize (A Er). cbn [init_st inp] in A.
+  assert (R : skipZ bs (ps_nrd ps) = inp s') by (rewrite N; rewrite A at 1; apply skipZ_app).
+  rewrite R, I'. rewrite O. rewrite (shape_stamps _ _ _ Sh). reflexivity.
 Qed.
 
 (** C01 for structure types: whenever the specification reads the whole input as a value of type [t] with only
@@ -38,18 +94,16 @@ Theorem types_decode_as_specified T t bs evs :
 Proof.
   unfold spec_events, sp_root. destruct (sp_ty T t root_path None false bs) as [[v [|x xs]]|] eqn:Es; try discriminate.
   cbn [forallb flat_map]. rewrite andb_true_r, app_nil_r. destruct (all_valid v) eqn:AV; [|discriminate]. intros [= <-].
-  destruct (sim_all T) as (St & _).
-  (* the run of the processor *)
-  assert (W0 : wf_st (mkSt bs [] [])) by (split; constructor).
-  destruct (St t root_path None false bs v [] (mkSt bs [] []) Es AV W0 eq_refl ltac:(unfold blen; cbn; lia) ltac:(constructor))
-    as (tr & s' & a & c & E & Sh & Ic & I' & V' & W' & _).
-  unfold decode, pump. cbn [is_stream_root dec_root].
-  assert (Er : (bind (set_lst []) (fun _ => dec_ty T true t root_path None false)) (init_st bs) = (tr, s', Ok a)).
-  { unfold bind. cbn [set_lst init_st inp store lst]. rewrite E. reflexivity. }
-  rewrite Er.
-  destruct (pump_go_nostream (Z.of_nat (List.length bs)) tr (mkP 0 None [])) as (ps & G & _ & N).
-  rewrite G. pose proof (pump_go_stamps _ _ _ _ _ _ G) as O. cbn [ps_out ps_nrd rev app] in O, N. rewrite Z.add_0_l in N.
-  pose proof (accounts_dec_root T true (RType t) (init_st bs) tr s' (Ok a)) as A. cbn [dec_root] in A. specialize (A Er). cbn [init_st inp] in A.
-  assert (R : skipZ bs (ps_nrd ps) = inp s') by (rewrite N; rewrite A at 1; apply skipZ_app).
-  rewrite R, I'. rewrite O. rewrite (shape_stamps _ _ _ Sh). reflexivity.
+  rewrite (types_decode_in_mode T true t bs v Es) by (rewrite ok_leaves_true; exact AV).
+  rewrite stamp_lenient_valid by (rewrite <- items_of_valid; exact AV). reflexivity.
+Qed.
+
+(** C08, value faults only: whenever the input is structurally consistent for type [t], warn-mode decoding emits the
+    event of every field of the field-by-field reading, one warning directly after each out-of-range leaf, and accepts *)
+Theorem types_decode_lenient T t bs evs :
+  spec_lenient T (RType t) bs = Some evs -> decode T false (RType t) bs = (evs, OAccepted).
+Proof.
+  unfold spec_lenient, sp_root. destruct (sp_ty T t root_path None false bs) as [[v [|x xs]]|] eqn:Es; try discriminate.
+  cbn [flat_map]. rewrite app_nil_r. intros [= <-].
+  apply (types_decode_in_mode T false t bs v Es). apply ok_leaves_false.
 Qed.
